@@ -52,6 +52,8 @@ RULE = ("generated Workflows of 3-8 steps (ValueFunctions; ResourceFunctions wit
         "(GET fault, mutation fault) plan. A case is one reconcile pass; non-trivial = a fault fired in it; distinct by "
         "(workflow, initial cluster, pass, call index, kind)")
 ASSUMPTIONS = [
+    "exception objects raised by the API layer are printable (str(exc) returns); one whose __str__ raises escapes "
+    "reconcile_workflow from a top-level step (theorem C09_pass_total_refuted, known finding)",
     "step results are never result.Ok INSTANCES (functions return bare values); checked on every observed result",
     "asyncio.TaskGroup / asyncio.timeout semantics (a raising task or the timeout cancels every unfinished task of the "
     "group; TaskGroup exits only when all its tasks are done) are observed under the virtual-time loop, not proved; the "
@@ -82,7 +84,54 @@ class Falsy(Exception):
         return False
 
 
+class StrRaises(Exception):
+    """an exception whose __str__ raises"""
+    def __str__(self):
+        raise RuntimeError("__str__ of the injected exception failed")
+
+
+def _kr8s(name, *a):
+    import kr8s
+    return getattr(kr8s, name)(*a)
+
+
+# realistic exception OBJECTS an API layer can raise: with and without args, non-string args, empty text, OSError /
+# TimeoutError subclasses, kr8s errors (ServerError without a response, NotFoundError, APITimeoutError), a group, and
+# one whose __str__ raises.  Kinds "x:<name>" raise it before the call takes effect, "xa:<name>" after.
+EXC_POOL = {
+    "noargs": lambda: Exception(),
+    "timeout": lambda: asyncio.TimeoutError(),                  # bare, as asyncio.wait_for raises it
+    "connreset": lambda: ConnectionResetError(),
+    "oserror": lambda: OSError(104, "Connection reset by peer"),
+    "intarg": lambda: Exception(5),
+    "objargs": lambda: RuntimeError({"code": 1}, ["x"]),
+    "emptystr": lambda: Exception(""),
+    "keyerror": lambda: KeyError("metadata"),
+    "valueerror": lambda: ValueError(),
+    "srv_noresp": lambda: _kr8s("ServerError", "no response"),
+    "notfound": lambda: _kr8s("NotFoundError", "gone"),
+    "apitimeout": lambda: _kr8s("APITimeoutError", "timed out"),
+    "group": lambda: ExceptionGroup("several", [ValueError(1), OSError()]),
+    "strraises": lambda: StrRaises("x"),
+}
+POOL_KINDS = [f"x:{n}" for n in EXC_POOL] + [f"xa:{n}" for n in EXC_POOL]
+# answers that MEAN "the object is absent" when given to the GET (accepted reading, see notes)
+ABSENT_ANSWERS = ("http404", "x:notfound", "xa:notfound")
+
+
+def c_fault(kind):
+    """Gallina fault of the single-function model"""
+    if kind is not None and kind.startswith(("x:", "xa:")):
+        after = cbool(kind.startswith("xa:"))
+        return f"(FSrv 404%Z {after})" if kind.endswith(":notfound") else f"(FExc {after})"
+    return C_FAULT[kind]
+
+
 def mk_fault(kind: str):
+    if kind.startswith("x:"):
+        return ("exc_before", EXC_POOL[kind[2:]]())
+    if kind.startswith("xa:"):
+        return ("exc_after", EXC_POOL[kind[3:]]())
     return {
         "exc": lambda: ("exc_before", Exception("injected")),
         "srv500": lambda: ("exc_before", server_error(500)),
@@ -467,7 +516,12 @@ class Recorder:
             return ("C",)
         e = t.exception()
         if e is not None:
-            return ("E", bool(e))
+            try:
+                str(e)
+                printable = True
+            except Exception:       # noqa: BLE001 - the exception object's own __str__ raises
+                printable = False
+            return ("E", printable)
         return ("F", t.result().result)
 
     def settle(self):
@@ -558,6 +612,9 @@ def closure(steps):
 
 def escape_problem(escaped, what_faulted, tag):
     """(signature, what) for a pass that did not return normally"""
+    if "strraises" in what_faulted and escaped != "Deadlock":
+        return ("exception whose __str__ raises escapes reconcile_workflow",
+                f"{escaped} escaped reconcile_workflow ({what_faulted}; {tag})")
     if escaped == "Deadlock":
         return (f"reconcile_workflow never returns: deadlock ({what_faulted})",
                 f"the event loop went idle with reconcile_workflow still pending: nothing can ever complete it ({tag})")
@@ -578,10 +635,14 @@ def oracle_pass(case, obs, faults_fired, tag):
     top = rec.wfs[0] if rec.wfs else None
     top_out = step_outcomes(top) if top else None
     fired_calls = [c for c in obs["calls"] if c.get("fault")]
-    lenient = all(c["method"] == "GET" and c.get("fault") == "http404" for c in fired_calls)
+    kind_of = dict(faults_fired)
+
+    def absent_answer(c):
+        return c["method"] == "GET" and kind_of.get(c["i"]) in ABSENT_ANSWERS
+    lenient = all(absent_answer(c) for c in fired_calls)
     if fired_calls and top_out is not None and not lenient:
         for c in fired_calls:
-            if c["method"] == "GET" and c.get("fault") == "http404":
+            if absent_answer(c):
                 continue
             own = owners.get(c["endpoint"])
             if not own:
@@ -673,7 +734,7 @@ def c_tend(e):
     if e is None or e[0] == "C":
         return "Cancelled"
     if e[0] == "E":
-        return "Excepted"
+        return f"(Excepted {cbool(e[1])})"
     return f"(Finished {c_sres(canon_oc(e[1]))})"
 
 
@@ -681,7 +742,7 @@ def c_otend(e):
     if e is None or e[0] == "C":
         return "OCancelled"
     if e[0] == "E":
-        return "OExcepted"
+        return f"(OExcepted {cbool(e[1])})"
     return f"(OFinished {c_oc(canon_oc(e[1]))})"
 
 
@@ -906,6 +967,17 @@ def explore_workflow(ctx: Ctx, case, cases, terms, budget):
         late = [{"p": p, "faults": {str(i): k}, "latency": {str(i): 1.0}}
                 for p, pe in enumerate(ref) for i, c in enumerate(pe["calls"]) if c[0] != "GET"
                 for k in ("exc", "falsy")]
+        # the pool of exception objects: every member, before and after the effect, on every mutating call (a rotating
+        # three of them when the workflow is not fully enumerated); two rotating members on every GET
+        pool = []
+        for p, pe in enumerate(ref):
+            for i, c in enumerate(pe["calls"]):
+                if c[0] != "GET" and case.get("full"):
+                    ks = POOL_KINDS
+                else:
+                    n = 3 if c[0] != "GET" else 2
+                    ks = [POOL_KINDS[(7 * (i + 3 * p) + 5 * j + case["uid"]) % len(POOL_KINDS)] for j in range(n)]
+                pool += [{"p": p, "faults": {str(i): k}} for k in dict.fromkeys(ks)]
         if len(plan) > budget and not case.get("full"):
             # keep every (pass, index) with a rotating subset of kinds, plus a random sample
             keep = []
@@ -918,7 +990,7 @@ def explore_workflow(ctx: Ctx, case, cases, terms, budget):
             rest = [pl for pl in plan if pl not in keep]
             ctx.rng.shuffle(rest)
             plan = (keep + rest)[:budget]
-        plan += late
+        plan += late + pool
         extra = case.get("pairs", 0)
         for _ in range(extra):
             p = ctx.rng.randrange(len(ref))
@@ -926,7 +998,7 @@ def explore_workflow(ctx: Ctx, case, cases, terms, budget):
             if n < 2:
                 continue
             i, j = sorted(ctx.rng.sample(range(n), 2))
-            pl = {"p": p, "faults": {str(i): ctx.rng.choice(KINDS[:-1]), str(j): ctx.rng.choice(KINDS[:-1])}}
+            pl = {"p": p, "faults": {str(i): ctx.rng.choice(KINDS[:-1] + POOL_KINDS), str(j): ctx.rng.choice(KINDS[:-1] + POOL_KINDS)}}
             if ctx.rng.random() < 0.5:
                 pl["latency"] = {str(ctx.rng.randrange(n)): ctx.rng.choice([0.5, 1.0, 2.0])}
             plan.append(pl)
@@ -1042,15 +1114,18 @@ def run_rf_faulty(sc, fg, fm):
         r.cluster.faults = {i: mk_fault(k) for i, k in ((0, fg), (1, fm)) if k}
         kind = "returned"
         out = None
+        guard = asyncio.timeout(10)
         try:
-            res = await asyncio.wait_for(drivers.reconcile_rf(fn, r.inputs, r.cluster, owner=r.owner), 10)
+            async with guard:
+                res = await drivers.reconcile_rf(fn, r.inputs, r.cluster, owner=r.owner)
             out = drivers.canon_outcome(res.outcome)
-        except asyncio.TimeoutError:
-            kind = "hung"
         except asyncio.CancelledError:
             kind = "cancelled"
         except Exception as e:      # noqa: BLE001
-            out = {"cls": "Raise", "exc": type(e).__name__}
+            if guard.expired():     # OUR guard fired (an injected TimeoutError object is just another exception)
+                kind = "hung"
+            else:
+                out = {"cls": "Raise", "exc": type(e).__name__}
         calls = m.observe_calls(r.cluster)
         return {"kind": kind, "outcome": out, "calls": calls, "match": seen.get("match"),
                 "before": before, "after": copy.deepcopy(r.cluster.objects)}
@@ -1088,7 +1163,7 @@ def c_rf_case(sc, fg, fm, o, r):
     calls = calls[calls.index("ob_calls := ") + len("ob_calls := "):-3]
     fobs = "{| fo_kind := %s; fo_cls := %s; fo_delay := %s; fo_value := %s; fo_calls := %s; fo_after := %s |}" % (
         kind, cls, copt(delay, cz), (f"(Some {cjson(val)})" if val is not None else "None"), calls, copt(after, cjson))
-    fp = "{| fp_get := %s; fp_mut := %s |}" % (C_FAULT[fg], C_FAULT[fm])
+    fp = "{| fp_get := %s; fp_mut := %s |}" % (c_fault(fg), c_fault(fm))
     return f"CRf {m.c_scenario(sc, o['match'] is True)} {fp} {fobs}"
 
 
@@ -1099,10 +1174,10 @@ def rf_oracle(sc, fg, fm, o, r):
     n = len(o["calls"])
     fired_get = fg is not None and n >= 1
     fired_mut = fm is not None and n >= 2
-    if fired_mut and fm in ("exc", "srv500", "http404", "http409", "http500", "hang", "cancel", "falsy") \
-            and o["after"] != o["before"]:
+    if fired_mut and (fm in ("exc", "srv500", "http404", "http409", "http500", "hang", "cancel", "falsy")
+                      or fm.startswith("x:")) and o["after"] != o["before"]:
         out.append(("single function: fault before the effect changed the cluster", f"{fg}/{fm}"))
-    if (fired_get and fg != "http404") or (fired_mut and fg is None):
+    if (fired_get and fg not in ABSENT_ANSWERS) or (fired_mut and fg is None):
         if o["kind"] == "returned" and o["outcome"]["cls"] not in ("Retry", "PermFail", "Raise"):
             out.append(("single function: faulted pass returned a value", f"{fg}/{fm}: {o['outcome']['cls']}"))
     return out
@@ -1110,7 +1185,10 @@ def rf_oracle(sc, fg, fm, o, r):
 
 def rf_fault_cases(ctx: Ctx, cases, terms):
     n_sc = 30 if ctx.quick() else 200
-    kinds = [None] + KINDS
+    # the single-function MODEL covers exception objects whose str() works (load_api_resource / _create_api_resource
+    # format the exception inside their handlers; an unprintable one turns into the error its __str__ raises)
+    printable_pool = [k for k in POOL_KINDS if not k.endswith(":strraises")]
+    kinds = [None] + KINDS + printable_pool
     for _ in range(n_sc):
         sc = m.rand_scenario(ctx.rng)
         m.clean_scenario(sc, ctx.rng)
@@ -1122,7 +1200,7 @@ def rf_fault_cases(ctx: Ctx, cases, terms):
         m.prepare_live(sc, ctx.rng)
         if ctx.quick():
             plans = [(ctx.rng.choice(kinds), ctx.rng.choice(kinds)) for _ in range(6)] + \
-                    [(None, k) for k in ctx.rng.sample(KINDS, 4)] + [(k, None) for k in ctx.rng.sample(KINDS, 3)]
+                    [(None, k) for k in ctx.rng.sample(KINDS + printable_pool, 6)] + [(k, None) for k in ctx.rng.sample(KINDS + printable_pool, 4)]
         else:
             plans = [(a, b) for a in kinds for b in kinds if ctx.rng.random() < 0.35 or a is None or b is None]
         for fg, fm in plans:
@@ -1184,6 +1262,8 @@ class LookupCluster(Cluster):
                 raise asyncio.CancelledError()
             if mode.startswith("http"):
                 raise server_error(int(mode[4:]))
+            if mode.startswith("x:"):
+                raise EXC_POOL[mode[2:]]()
             raise Exception("lookup failed")
         return await super().lookup_kind(kind)
 
@@ -1281,6 +1361,7 @@ def lookup_cases(ctx: Ctx, plans=None):
     if plans is None:
         plans = [{i: mode} for mode in LOOKUP_MODES for i in (0, 1)]
         plans += [{0: "notfound", 1: "notfound"}, {0: "hang", 1: "raise"}]
+        plans += [{j % 2: f"x:{n}"} for j, n in enumerate(EXC_POOL)]
         if not ctx.quick():
             plans += [{0: a, 1: b} for a in LOOKUP_MODES for b in LOOKUP_MODES]
     for lf in plans:
